@@ -102,6 +102,13 @@ impl SendDispatcher<'_> {
             .max()
             .unwrap_or(0)
     }
+
+    /// Verification hook: for every stage, the number of boxed systems in
+    /// every group (the layout that is really executed). Read-only.
+    #[cfg(feature = "verif-hooks")]
+    pub fn verif_layout(&self) -> Vec<Vec<usize>> {
+        self.stages.iter().map(Stage::verif_group_sizes).collect()
+    }
 }
 
 impl RunNow<'_> for SendDispatcher<'_> {
